@@ -1,7 +1,8 @@
 (* C08 — Disabled transformation classes are really disabled.
    Statements on the pipeline model, for every oracle environment (any clock, any compressor), every
    setting of the OTHER switches, presets, filters and deflaters. `optimize_raw` returns the image
-   that is then serialised (its header becomes the output IHDR, its palette the output PLTE). *)
+   that is then serialised (its header becomes the output IHDR, its palette the output PLTE).
+   DOWN TO THE FILE (second half): the same switches for the header of the PngData that is serialised and for the in-memory call. *)
 From OxiVerif Require Import Base.Common Model.Types Model.Options Model.Reductions Model.Optimize
   Proofs.ReductionInv Proofs.EffectProofs Proofs.PipelineProofs.
 
